@@ -5,6 +5,7 @@ use gimli::{BigEndian, EndianSlice, Endianity, Format, LittleEndian, Reader, Run
 use mcx::leb::{self, Dec};
 use mcx::{guard, CheckDef, Ctx, Sub, Tier};
 
+#[path = "codec/c10.rs"]
 mod c10;
 
 fn main() {
